@@ -243,6 +243,11 @@ def check_walk(ctx, rep, rule='T-walk'):
             continue
         n += 1
         init = calls[names.index('initialize_from_context')]
+        if len(init['args']) != 3:
+            rep.ob(rule, 'contour-initialised-from-start-event', False,
+                   'initialize_from_context is called with %d arguments; the walk rule models (event, &mut contours, contour_id) because the '
+                   'hole/parent registration happens there' % len(init['args']), loc=b.loc(init['line']), reason='cannot-tabulate')
+            continue
         cid = noepoch(strip_upd(init['args'][2]))
         cid_ok = cid[0] == 'cast' and strip_upd(cid[2])[0] in ('call', 'pcall') and strip_upd(cid[2])[1].endswith('::len')
         start_ok = event_index(init['args'][0], p) == 'i'
